@@ -6,6 +6,7 @@ CONSTANTS
   DoublePars = {{}}
   CompletePars = {{}}
   EmitLen = 3
+  RandomOps = FALSE
   EmitRare = {"replace_q", "replace_p", "walk_gone"}
 INVARIANT InvCyclesComplete
 INVARIANT InvExponentBalance
